@@ -12,6 +12,8 @@ import Mathlib.Algebra.BigOperators.Ring.Finset
 import Mathlib.Algebra.BigOperators.Field
 import Mathlib.Algebra.BigOperators.Group.Finset.Sigma
 import Mathlib.Data.Fintype.BigOperators
+import Mathlib.Algebra.BigOperators.Pi
+import Mathlib.Algebra.BigOperators.Fin
 import Mathlib.Algebra.Field.Basic
 import Mathlib.Tactic.Ring
 import Mathlib.Tactic.FieldSimp
@@ -153,6 +155,154 @@ theorem matern_reported_partial (V : K) (mults ops2 : List K) (hV : V ≠ 0) :
       | cons o os => simp only [List.map_cons, wsum_cons, ih]; field_simp
   rw [this]
   field_simp
+
+/-- **both Hartley conventions.**  The un-normalised Hartley kernel is `cos + σ·sin`: `σ = −1` for `Re(fft) + Im(fft)`
+    (non-canonical: NIFTy classic and the JAX default), `σ = +1` for `Re(fft) − Im(fft)` (canonical).  From the elementary
+    trigonometric column sums (`Σ_x cos = Σ_x sin = 0` off the zero mode, `Σ_x cos·sin = 0`, `cos² + sin² = 1`) the three
+    hypotheses of `expected_spatial_variance` follow for every `σ` with `σ² = 1`; the harness checks the three conclusions on the
+    real kernels of both conventions (`hartley_kernel_check`). -/
+theorem hartley_columns {X M : Type} [Fintype X] [Fintype M] [DecidableEq M]
+    (c s : X → M → K) (σ : K) (k0 : M) (hσ : σ * σ = 1)
+    (hcs : ∀ x k, c x k * c x k + s x k * s x k = 1)
+    (hc0 : ∀ x, c x k0 = 1) (hs0 : ∀ x, s x k0 = 0)
+    (hc : ∀ k, k ≠ k0 → ∑ x, c x k = 0) (hs : ∀ k, k ≠ k0 → ∑ x, s x k = 0)
+    (hx : ∀ k, ∑ x, c x k * s x k = 0) :
+    (∀ x, c x k0 + σ * s x k0 = 1) ∧
+    (∀ k, k ≠ k0 → ∑ x, (c x k + σ * s x k) = 0) ∧
+    (∀ k, ∑ x, (c x k + σ * s x k) * (c x k + σ * s x k) = (Fintype.card X : K)) := by
+  refine ⟨fun x => by simp [hc0, hs0], fun k hk => ?_, fun k => ?_⟩
+  · rw [Finset.sum_add_distrib, ← Finset.mul_sum, hc k hk, hs k hk]; ring
+  · have : ∀ x, (c x k + σ * s x k) * (c x k + σ * s x k) =
+        (c x k * c x k + s x k * s x k) + (σ * σ - 1) * (s x k * s x k) + 2 * σ * (c x k * s x k) := by
+      intro x; ring
+    simp only [this, hcs, hσ, sub_self, zero_mul, add_zero]
+    rw [Finset.sum_add_distrib, ← Finset.mul_sum, hx k]
+    simp
+
+theorem hartley_variance_both_conventions {X M : Type} [Fintype X] [Fintype M] [DecidableEq M]
+    (c s : X → M → K) (σ : K) (A : M → K) (V : K) (k0 : M) (hσ : σ * σ = 1)
+    (hN : (Fintype.card X : K) ≠ 0)
+    (hcs : ∀ x k, c x k * c x k + s x k * s x k = 1)
+    (hc0 : ∀ x, c x k0 = 1) (hs0 : ∀ x, s x k0 = 0)
+    (hc : ∀ k, k ≠ k0 → ∑ x, c x k = 0) (hs : ∀ k, k ≠ k0 → ∑ x, s x k = 0)
+    (hx : ∀ k, ∑ x, c x k * s x k = 0) :
+    (1 / (Fintype.card X : K)) * ∑ x, ∑ k, ((A k / V) * ((c x k + σ * s x k) -
+        (1 / (Fintype.card X : K)) * ∑ y, (c y k + σ * s y k))) ^ 2 =
+      (1 / (V * V)) * ∑ k ∈ univ.erase k0, A k * A k := by
+  obtain ⟨h0, h1, h2⟩ := hartley_columns c s σ k0 hσ hcs hc0 hs0 hc hs hx
+  exact expected_spatial_variance (fun x k => c x k + σ * s x k) A V k0 hN h0 h1 h2
+
+/-- amplitudes that are constant on the bins of a power space -/
+theorem binned_mode_sum {M B : Type} [Fintype M] [Fintype B] [DecidableEq M] [DecidableEq B]
+    (bin : M → B) (a : B → K) (k0 : M) :
+    ∑ k ∈ univ.erase k0, a (bin k) * a (bin k) =
+      ∑ b, (((univ.erase k0).filter fun k => bin k = b).card : K) * (a b * a b) := by
+  rw [← Finset.sum_fiberwise (univ.erase k0) bin]
+  apply Finset.sum_congr rfl
+  intro b _
+  rw [Finset.sum_congr rfl (fun k hk => by rw [(Finset.mem_filter.mp hk).2] : ∀ k ∈ (univ.erase k0).filter (fun k => bin k = b), a (bin k) * a (bin k) = a b * a b)]
+  simp
+
+theorem prodSel_false (azm2 : K) (f2 : List K) :
+    prodSel azm2 f2 (fun _ => false) = (f2.map fun f => 1 + f / azm2).prod := by
+  unfold prodSel
+  simp only [Bool.false_eq_true, if_false]
+  have h2 : ((List.range f2.length).zip f2).map Prod.snd = f2 := List.map_snd_zip (by simp)
+  have : ((List.range f2.length).zip f2).map (fun p => 1 + p.2 / azm2) = f2.map fun f => 1 + f / azm2 := by
+    conv_rhs => rw [← h2, List.map_map]
+    rfl
+  rw [this, List.prod_eq_foldl]
+
+theorem total2_general (azm2 : K) (f2 : List K) (h : f2.length ≠ 1) :
+    total2 azm2 f2 = azm2 * ((f2.map fun f => 1 + f / azm2).prod - 1) := by
+  unfold total2
+  split
+  · simp at h
+  · rw [prodSel_false]
+
+/-- sum over the product modes that are non-zero in space `j` -/
+theorem product_slice_sum {ι : Type} [Fintype ι] [DecidableEq ι] {M : ι → Type} [∀ i, Fintype (M i)] [∀ i, DecidableEq (M i)]
+    (b : ∀ i, M i → K) (z : ∀ i, M i) (j : ι) :
+    ∑ k ∈ (univ : Finset (∀ i, M i)).filter (fun k => k j ≠ z j), ∏ i, b i (k i) =
+      (∑ m ∈ univ.erase (z j), b j m) * ∏ i ∈ univ.erase j, ∑ m, b i m := by
+  have hf : (univ : Finset (∀ i, M i)).filter (fun k => k j ≠ z j) =
+      Fintype.piFinset (Function.update (fun i => (univ : Finset (M i))) j (univ.erase (z j))) := by
+    ext k
+    simp only [Finset.mem_filter, Finset.mem_univ, true_and, Fintype.mem_piFinset]
+    constructor
+    · intro h i
+      by_cases hi : i = j
+      · subst hi; simp [h]
+      · simp [Function.update_of_ne hi]
+    · intro h
+      have := h j
+      simpa using this
+  rw [hf, ← Finset.prod_univ_sum, ← Finset.mul_prod_erase univ _ (Finset.mem_univ j)]
+  congr 1
+  · simp
+  · apply Finset.prod_congr rfl
+    intro i hi
+    rw [Function.update_of_ne (Finset.ne_of_mem_erase hi)]
+
+/-- `slice_fluctuation(j)²` for any number of spaces -/
+theorem slice_modes_general {ι : Type} [Fintype ι] [DecidableEq ι] {M : ι → Type} [∀ i, Fintype (M i)] [∀ i, DecidableEq (M i)]
+    (b : ∀ i, M i → K) (z : ∀ i, M i) (azm2 : K) (f : ι → K) (j : ι)
+    (hz : ∀ i, b i (z i) = 1) (hf : ∀ i, ∑ m ∈ univ.erase (z i), b i m = f i / azm2) :
+    azm2 * ∑ k ∈ (univ : Finset (∀ i, M i)).filter (fun k => k j ≠ z j), ∏ i, b i (k i) =
+      azm2 * ((f j / azm2) * ∏ i ∈ univ.erase j, (1 + f i / azm2)) := by
+  rw [product_slice_sum, hf j]
+  congr 2
+  apply Finset.prod_congr rfl
+  intro i _
+  rw [← Finset.add_sum_erase univ _ (Finset.mem_univ (z i)), hz i, hf i]
+
+/-- `total_fluctuation²` for any number of spaces -/
+theorem total_modes_general {ι : Type} [Fintype ι] [DecidableEq ι] {M : ι → Type} [∀ i, Fintype (M i)] [∀ i, DecidableEq (M i)]
+    (b : ∀ i, M i → K) (z : ∀ i, M i) (azm2 : K) (f : ι → K)
+    (hz : ∀ i, b i (z i) = 1) (hf : ∀ i, ∑ m ∈ univ.erase (z i), b i m = f i / azm2) :
+    azm2 * ∑ k ∈ (univ : Finset (∀ i, M i)).erase z, ∏ i, b i (k i) = azm2 * (∏ i, (1 + f i / azm2) - 1) := by
+  rw [product_mode_sum]
+  congr 2
+  · apply Finset.prod_congr rfl
+    intro i _
+    rw [← Finset.add_sum_erase univ _ (Finset.mem_univ (z i)), hz i, hf i]
+  · simp [hz]
+
+/-- tie to the list model: `total2` of `n ≠ 1` spaces is the mode sum -/
+theorem total2_ofFn {n : Nat} (hn : n ≠ 1) {M : Fin n → Type} [∀ i, Fintype (M i)] [∀ i, DecidableEq (M i)]
+    (b : ∀ i, M i → K) (z : ∀ i, M i) (azm2 : K) (f : Fin n → K)
+    (hz : ∀ i, b i (z i) = 1) (hf : ∀ i, ∑ m ∈ univ.erase (z i), b i m = f i / azm2) :
+    total2 azm2 (List.ofFn f) = azm2 * ∑ k ∈ (univ : Finset (∀ i, M i)).erase z, ∏ i, b i (k i) := by
+  rw [total_modes_general b z azm2 f hz hf, total2_general _ _ (by simpa using hn)]
+  congr 2
+  rw [List.map_ofFn, Fin.prod_ofFn]
+  rfl
+
+/-- **Matern (and any other binned amplitude), not renormalised, either Hartley convention**: with amplitudes `a (bin k)` that
+    are constant on the bins of the power space, the pixel-averaged variance about the spatial mean is
+    `(1/V²) Σ_b mult_b · a_b²` with `mult_b` the number of non-zero modes in bin `b` — `spatialVar` of the list model; the classic
+    code reports `maternReported2` instead (`matern_reported_partial`, known finding).  With renormalisation the amplitudes are
+    `normPower` of the Matern spectrum and `spatialVar_normalised` gives exactly `flu²`. -/
+theorem matern_realised_variance {X M B : Type} [Fintype X] [Fintype M] [Fintype B] [DecidableEq M] [DecidableEq B]
+    (c s : X → M → K) (σ : K) (bin : M → B) (a : B → K) (V : K) (k0 : M) (hσ : σ * σ = 1)
+    (hN : (Fintype.card X : K) ≠ 0)
+    (hcs : ∀ x k, c x k * c x k + s x k * s x k = 1)
+    (hc0 : ∀ x, c x k0 = 1) (hs0 : ∀ x, s x k0 = 0)
+    (hc : ∀ k, k ≠ k0 → ∑ x, c x k = 0) (hs : ∀ k, k ≠ k0 → ∑ x, s x k = 0)
+    (hx : ∀ k, ∑ x, c x k * s x k = 0) :
+    (1 / (Fintype.card X : K)) * ∑ x, ∑ k, ((a (bin k) / V) * ((c x k + σ * s x k) -
+        (1 / (Fintype.card X : K)) * ∑ y, (c y k + σ * s y k))) ^ 2 =
+      (1 / (V * V)) * ∑ b, (((univ.erase k0).filter fun k => bin k = b).card : K) * (a b * a b) := by
+  rw [hartley_variance_both_conventions c s σ (fun k => a (bin k)) V k0 hσ hN hcs hc0 hs0 hc hs hx, binned_mode_sum]
+
+/-- non-vacuity of the Hartley hypotheses: two pixels, modes 0 and 1 (`cos πxk = ±1`, `sin = 0`), both conventions -/
+example : ∀ σ : ℚ, σ * σ = 1 →
+    let c : Fin 2 → Fin 2 → ℚ := fun x k => if x = 1 ∧ k = 1 then -1 else 1
+    let s : Fin 2 → Fin 2 → ℚ := fun _ _ => 0
+    (∀ x k, c x k * c x k + s x k * s x k = 1) ∧ (∀ x, c x 0 = 1) ∧ (∀ k, k ≠ 0 → ∑ x, c x k = 0) ∧ (∀ k, ∑ x, c x k * s x k = 0) := by
+  intro σ _
+  simp only [Fin.forall_fin_two, Fin.sum_univ_two]
+  norm_num
 
 /-- witness at the excluded point: with `V = 2`, one non-zero bin of multiplicity 2 and `op² = 8` the realised variance is 4 but the
     reported square is 10 -/
